@@ -228,8 +228,8 @@ func runC13(ctx *core.Ctx) {
 	m := len(z01)
 	ctx.Extra("zero_one_forms", m)
 	lim := m
-	if ctx.Quick() && lim > 8 {
-		lim = 8
+	if lim > 14 {
+		lim = 14
 	}
 	zz := z01
 	if lim < m {
@@ -244,6 +244,14 @@ func runC13(ctx *core.Ctx) {
 		return quadCase{C: [4]elemIn{zz[i%k], zz[(i/k)%k], zz[(i/k/k)%k], zz[i/k/k/k]}, Origin: "zero/one forms"}
 	})
 	// (b) deviations
+	var zeroForms []elemIn
+	for _, l := range alpha.BorrowForms(big.NewInt(0), alpha.DefaultBox) {
+		zeroForms = append(zeroForms, elemIn{l})
+	}
+	for _, e := range alpha.ElemRecipes(big.NewInt(0)) {
+		zeroForms = append(zeroForms, inOf(&e))
+	}
+	ctx.Extra("zero_forms", len(zeroForms))
 	var cases []quadCase
 	devVals := alpha.FieldValues(true)
 	for _, np := range alpha.Points(ctx.Quick()) {
@@ -271,12 +279,16 @@ func runC13(ctx *core.Ctx) {
 				nq[i] = elemIn{alpha.CanonLimbs(ref.FNeg(co[i]))}
 			}
 			cases = append(cases, quadCase{C: zq, Origin: "all zero"}, quadCase{C: nq, Origin: "negated"})
-			// Z = 0 with the other coordinates kept
-			q := base
-			q[2] = elemIn{alpha.CanonLimbs(big.NewInt(0))}
-			cases = append(cases, quadCase{C: q, Origin: "Z=0"})
-			q[3] = elemIn{alpha.CanonLimbs(big.NewInt(0))}
-			cases = append(cases, quadCase{C: q, Origin: "Z=0,T=0"})
+			// Z = 0, in every limb form of zero, with the other coordinates kept
+			// and with all coordinates zero (each in that form)
+			for _, z := range zeroForms {
+				q := base
+				q[2] = z
+				cases = append(cases, quadCase{C: q, Origin: "Z=0"})
+				q[3] = z
+				cases = append(cases, quadCase{C: q, Origin: "Z=0,T=0"})
+				cases = append(cases, quadCase{C: [4]elemIn{z, z, z, z}, Origin: "all zero (one limb form)"})
+			}
 		}
 	}
 	subC13.RunList(ctx, cases)
